@@ -108,6 +108,10 @@
             []byte).  A function containing one is translated to a function into [option]:
             [if bytes_len b <=? k then None else ...], every [return] wrapped in [Some].  Such a
             function cannot be called from another translated function;
+          - STRING indexing / slicing / concatenation, array slices with non-constant bounds WITH their
+            run-time panics modelled, and the text library functions of the frame text family
+            (fmt.Sprintf %0wX, strconv.Itoa/ParseUint/Atoi, encoding/hex, strings.Split/ToUpper): see
+            Translate/GoSemText.v (its header lists the trusted readings);
           - LOOPS, slices of structs, [*S] results, [range] over strings: see the comments at
             [go_loop] / [go_range], [go_utf8_decode] / [go_range_string], [list_len] / [go_deref] below;
           - library functions WITHOUT a model ([unicode.IsDigit], [unicode.IsUpper], ...) are not
